@@ -319,7 +319,7 @@ func main() {
 		fmt.Println(w.canon())
 		w.Close()
 		if k != "" {
-			fmt.Printf("VIOLATION property=C20 replay=%s\n  %s: %s\n", os.Args[2], k, d)
+			fmt.Printf("VIOLATION property=%s replay=%s\n  %s: %s\n", ev.As("C20"), os.Args[2], k, d)
 			os.Exit(1)
 		}
 		fmt.Println("replay: property held")
